@@ -20,7 +20,8 @@ git apply $out/patch.diff
 files=$(git diff --name-only | xargs -n1 dirname | sort -u | sed 's|^|./|;s|$|/...|' | tr '\n' ' ')
 suite=$(go test -vet=off -count=1 -skip '^TestSeedDemo$' $files ./pipeline/... ./storage/... ./service/... ./orchestrator/... ./manifest/... ./block/... 2>&1 | grep -v "no test files" | grep -v "^ok" | head -5)
 [ -z "$suite" ] && suite="all ok"
-# run the checks on /repo with the change applied
+# run the checks on /repo with the change applied (never on a dirty tree: the revert would lose edits)
+if [ -n "$(git -C /repo status --short)" ]; then echo "/repo has uncommitted changes: commit them first"; exit 1; fi
 cd /repo && git apply $out/patch.diff || { echo "patch does not apply to /repo"; exit 1; }
 results=""
 for p in $prop "$@"; do
